@@ -176,7 +176,10 @@ class API:
             if isinstance(out.exc, AttributeError) and _missing_init_field(out.exc):
                 # the object under test was built by the unit without running __init__, and the code now reads a field
                 # that __init__ establishes (e.g. one added by an edit): the harness is out of date, the code is not at fault
-                raise core.Unsupported("harness object lacks the field %r that %s.__init__ sets" % (out.exc.name, type(out.exc.obj).__name__))
+                raise core.Unsupported("harness object lacks the field %r that %s.__init__ (or a method it runs) sets" % (out.exc.name, type(out.exc.obj).__name__))
+            if isinstance(out.exc, AttributeError) and _on_harness_double(out.exc):
+                # the code asked a stand-in object of the unit (a SimpleNamespace / a class defined in the contract file) for something it does not model
+                raise core.Unsupported("harness double does not model .%s (%s)" % (getattr(out.exc, "name", "?"), type(out.exc.obj).__name__))
             site = _site(out.exc)
             if site == "?":
                 # no frame of /repo in the traceback: raised by the harness / a proxy, not by the code under proof
@@ -209,12 +212,27 @@ def _on_proxy(exc):
     return isinstance(exc, AttributeError) and any(("'%s' object has no attribute" % n) in msg for n in ("SStr", "SInt", "SBool", "SReal", "SSeq", "SDict", "SFut"))
 
 
+def _on_harness_double(exc):
+    """AttributeError for `obj.name` where obj is a types.SimpleNamespace or an instance (or class) defined in a contract file / the engine, i.e. a double the unit put in place"""
+    import types as _types
+    obj = getattr(exc, "obj", None)
+    if obj is None or not getattr(exc, "name", None):
+        return False
+    if isinstance(obj, _types.SimpleNamespace):
+        return True
+    klass = obj if isinstance(obj, type) else type(obj)
+    mod = sys.modules.get(getattr(klass, "__module__", None))
+    f = getattr(mod, "__file__", "") or ""
+    return f.startswith("/verif/")
+
+
 def _missing_init_field(exc):
     """AttributeError for `obj.name` where some __init__ in type(obj)'s MRO assigns self.name."""
     obj, name = getattr(exc, "obj", None), getattr(exc, "name", None)
     if obj is None or not name or isinstance(obj, type):
         return False
     import re as _re
+    pats = (r"\bself\.%s\b\s*(?::[^=\n]+)?=[^=]" % _re.escape(name), r"\bself\.%s\s*," % _re.escape(name))
     for klass in type(obj).__mro__:
         init = vars(klass).get("__init__")
         if init is None:
@@ -223,7 +241,17 @@ def _missing_init_field(exc):
             src = inspect.getsource(init)
         except (OSError, TypeError):
             continue
-        if _re.search(r"\bself\.%s\b\s*(?::[^=\n]+)?=[^=]" % _re.escape(name), src) or _re.search(r"\bself\.%s\s*," % _re.escape(name), src):
+        if any(_re.search(p_, src) for p_ in pats):
+            return True
+    # ... or by a method that __init__ runs (RequestHandler.__init__ -> clear() sets the per-response fields): the class's own source assigns the field somewhere
+    for klass in type(obj).__mro__:
+        if klass is object or "/repo/" not in (getattr(sys.modules.get(klass.__module__), "__file__", "") or ""):
+            continue
+        try:
+            src = inspect.getsource(klass)
+        except (OSError, TypeError):
+            continue
+        if any(_re.search(p_, src) for p_ in pats):
             return True
     return False
 
